@@ -111,6 +111,10 @@ let eval_stream (stream : string) (case : string) (impl : string) : verdict =
   | "printer" -> let (model, fails) = Printer_o.eval case impl in { model; fails }
   | "pool" -> let (model, fails) = Pool_o.eval case impl in { model; fails }
   | "modes" -> let (model, fails) = Modes_o.eval case impl in { model; fails }
+  | "modes09" ->
+    (* C09 in every serve mode: the transcripts of the three modes must be the model's *)
+    let (model, fails) = Modes_o.eval case impl in
+    { model; fails = List.filter_map (fun (p, k) -> if p = "C17" then Some ("C09", k) else None) fails }
   | "epoll" -> let (model, fails) = Epoll_o.eval case impl in { model; fails }
   | "memory" -> let (model, fails) = Memory_o.eval case impl in { model; fails }
   | "clientread" -> let (model, fails) = Parse_o.eval_clientread case impl in { model; fails }
